@@ -405,7 +405,7 @@ Qed.
 Lemma ws_init_seg_any (w : cworld) idx sub size force :
   net_wf (w_s w) -> mux_ok idx sub -> size_ok size -> expedited size force = false ->
   let '(w', st', r) := ws_init net_step w idx sub size force in
-  net_wf (w_s w') /\ rclass r /\ st' = ws_new size /\
+  net_wf (w_s w') /\ rclass r /\ (r = Ok tt -> st' = ws_new size) /\
   (r = Ok tt -> n_srv (w_s w') = set_x (XDl (mux_bytes idx sub) size [] false) (n_srv (w_s w))).
 Proof.
   intros Hwf Hm Hs He. unfold ws_init.
@@ -427,9 +427,9 @@ Proof.
   - destruct (nth 0 resp 0 =? 96).
     + split; [auto|]. split; [apply rclass_ok|]. split; [reflexivity|]. intros _.
       rewrite (Hsrv resp eq_refl). unfold req. rewrite ref_dl_init by auto. reflexivity.
-    + split; [auto|]. split; [apply rclass_comm|]. split; [reflexivity|]. discriminate.
-  - split; [auto|]. split; [apply (rclass_err_cast k Hc1)|]. split; [reflexivity|]. discriminate.
-  - split; [auto|]. split; [apply rclass_abort|]. split; [reflexivity|]. discriminate.
+    + split; [auto|]. split; [apply rclass_comm|]. split; discriminate.
+  - destruct (k =? E_SDOCOMM); (split; [auto|]; split; [apply (rclass_err_cast k Hc1)|]; split; discriminate).
+  - split; [auto|]. split; [apply rclass_abort|]. split; discriminate.
 Qed.
 
 Lemma ws_init_seg_clean (w : cworld) idx sub size force :
@@ -704,7 +704,7 @@ Proof.
         destruct (ws_close net_step w0 st0) as [[w1 st1] r1]. destruct Hcg as [Hwf1 _].
         split; [auto|]. split; [auto|]. split; [discriminate|].
         intros Hf. destruct (Hcl0 Hf) as [H _]. discriminate. }
-    specialize (Hsrv0 eq_refl).
+    specialize (Hsrv0 eq_refl). specialize (Hst0 eq_refl).
     assert (Hx0 : s_x (n_srv (w_s w0)) = XDl (mux_bytes idx sub) size [] false) by (rewrite Hsrv0; reflexivity).
     subst st0.
     pose proof (write_sched_seg (mux_bytes idx sub) size sched data w0 (ws_new size) [] false Hwf0 Hx0
@@ -1941,6 +1941,39 @@ Proof.
   intros Hok. destruct (net_wf_init store) as [Hwf Hf].
   destruct (run_tcases_clean full ts (init_world store) Hwf Hf Hok) as (w' & os & E & A & B & C & _).
   exists w', os. auto.
+Qed.
+
+(* ---- a refused / unanswered initiation ends the transfer: close() of the discarded stream sends nothing ---- *)
+Lemma ws_init_failed_done {S} (peer : S -> frame -> S * list frame) (w : @world S) idx sub size force w0 st0 r0 :
+  ws_init peer w idx sub size force = (w0, st0, r0) -> sdo_error r0 -> ws_done st0 = true.
+Proof.
+  unfold ws_init. intros H Herr.
+  assert (Hne : forall k, k <> E_SDOCOMM -> ~ @sdo_error unit (Err k)).
+  { intros k Hk [H1|[c H1]]; [inversion H1; contradiction|discriminate]. }
+  repeat match type of H with
+         | context [if ?c then _ else _] => destruct c eqn:?
+         | context [match ?x with None => _ | Some _ => _ end] => destruct x eqn:?
+         | context [match pack_sdo ?a ?b ?c with _ => _ end] => destruct (pack_sdo a b c) eqn:?
+         | context [let '(_, _) := request_response ?p ?w ?r in _] => destruct (request_response p w r) as [? [?|?|?]] eqn:?
+         end;
+    try (injection H as <- <- <-); try reflexivity;
+    try (exfalso; destruct Herr as [He|[c He]]; discriminate);
+    try (exfalso; unfold pack_sdo in *;
+         repeat match goal with H : (if ?c then _ else _) = _ |- _ => destruct c; try discriminate end;
+         match goal with H : _ = Err ?k |- _ => injection H as <- end;
+         destruct Herr as [He|[c He]]; discriminate).
+  all: try (exfalso; apply (Hne k); [lia|exact Herr]).
+Qed.
+
+Lemma failed_initiation_silent {S} (peer : S -> frame -> S * list frame) (w : @world S) idx sub size force data sched w0 st0 r0 :
+  ws_init peer w idx sub size force = (w0, st0, r0) -> sdo_error r0 ->
+  with_write peer w idx sub size force data sched = (w0, r0) /\
+  forall ops, replay_write peer w idx sub size force data ops = (w0, r0).
+Proof.
+  intros Hi Herr. pose proof (ws_init_failed_done peer w idx sub size force w0 st0 r0 Hi Herr) as Hd.
+  unfold with_write, replay_write. rewrite Hi.
+  assert (Hc : ws_close peer w0 st0 = (w0, st0, Ok tt)) by (unfold ws_close; rewrite Hd; reflexivity).
+  destruct r0 as [[]|k|c]; [destruct Herr as [H|[c H]]; discriminate| |]; rewrite Hc; auto.
 Qed.
 
 (* ---- C07 ---- *)
